@@ -56,7 +56,7 @@ Section Keys.
       + intros H. injection H as <- <-. split; [discriminate|]. split; [|exact Inv].
         intros t k H. injection H as <- <-. rewrite <- Hs. apply Inv. exact Hin.
       + destruct (now <? pe_renew e).
-        * destruct (pk_serves (ps_kdc s) && (now <=? pe_end e + 1000)).
+        * destruct (pk_serves (ps_kdc s) && (now + pk_ahead (ps_kdc s) <=? pe_end e + 1000)).
           -- destruct (prenew keysrc (ps_kdc s) e now) as [e' k'] eqn:E.
              destruct (prenew_log _ _ _ _ _ E) as [Es El]. rewrite Hs in Es, El.
              rewrite <- Es at 1. rewrite plookup_pstore.
@@ -93,8 +93,8 @@ Section Keys.
   Qed.
 
   (* from the empty client *)
-  Corollary pairs_issued_together_fresh life renew serves ops o a s' :
-    In (o, Some a, s') (pstates keysrc (mkPS [] (mkPK 0 life renew serves [])) ops) ->
+  Corollary pairs_issued_together_fresh life renew serves ahead ops o a s' :
+    In (o, Some a, s') (pstates keysrc (mkPS [] (mkPK 0 life renew serves ahead [])) ops) ->
     exists spn now, o = PGet spn now /\ a <> PLost /\
       forall t k, pair_of a = Some (t, k) -> In (t, spn, k) (pk_log (ps_kdc s')).
   Proof. apply pairs_issued_together. intros e []. Qed.
@@ -104,7 +104,7 @@ End Keys.
    1 after ticket 0 with key 0); a client that patched the OLD entry with the new ticket but kept its key would hand
    back (1, 0), which is not in the log. *)
 Example served_renewal_example :
-  let s0 := mkPS [] (mkPK 0 2 60 true []) in
+  let s0 := mkPS [] (mkPK 0 2 60 true 0 []) in
   prun (fun n => n) s0 [PGet 7 500; PGet 7 1000; PGet 7 2300; PGet 7 2400; PGet 7 9000] =
     [Some (PFresh 0 0); Some (PHit 0 0); Some (PRenewed 1 1); Some (PHit 1 1); Some (PRefused 2 2)]
   /\ ~ In (1, 7, 0) [(2, 7, 2); (1, 7, 1); (0, 7, 0)].
